@@ -632,6 +632,7 @@ MUTANTS = [
     if (gap_sizes[chroms[1:] == chroms[:-1]] > -bp).all():
         return table
     if stranded:"""),
+    dict(name="twin: merge fast path through np.all and a shifted comparison", expect="silent", file="skgenome/merge.py", old="    gap_sizes = table.start.values[1:] - table.end.cummax().values[:-1]\n    if (gap_sizes > -bp).all():\n        return table\n    if stranded:", new="    if np.all(table.start.values[1:] + bp > table.end.cummax().values[:-1]):\n        return table\n    if stranded:"),
     dict(name="flatten fast path ignores the last row", file="skgenome/merge.py", old="    if (table.start.values[1:] >= table.end.cummax().values[:-1]).all():", new="    if (table.start.values[1:-1] >= table.end.cummax().values[:-2]).all():"),
     dict(name="seeded C06d: chromosome sizes looked up into a fresh-index Series", file="skgenome/gary.py", old='            limits["upper"] = self.chromosome.map(chrom_sizes)\n', new='            sizes = pd.Series(chrom_sizes)\n            limits["upper"] = sizes[self.chromosome].reset_index(drop=True)\n'),
     dict(name="twin: chromosome sizes looked up into a plain array", expect="silent", file="skgenome/gary.py", old='            limits["upper"] = self.chromosome.map(chrom_sizes)\n', new='            sizes = pd.Series(chrom_sizes)\n            limits["upper"] = sizes[self.chromosome].values\n'),
